@@ -196,3 +196,70 @@ func towers(ptr any, showKey func(reflect.Value) string) (level, n int, isNil bo
 	}
 	return level, n, false, chains, bad
 }
+
+// towerLens is the dump for large lists: it validates the reflected towers in place (every
+// level strictly ascending under cmp, no cycle, every node linked in exactly as many levels as
+// its tower is high — hence level i+1 a sub-list of level i — ) and returns only the chain
+// lengths. bad is non-empty when the structure is damaged.
+func towerLens[K any](ptr any, cmp func(K, K) int) (level, n int, isNil bool, lens []int, bad string) {
+	v := reflect.ValueOf(ptr).Elem()
+	level = int(v.FieldByName("level").Int())
+	n = int(v.FieldByName("len").Int())
+	head := v.FieldByName("head")
+	hn := head.FieldByName("next")
+	if hn.IsNil() {
+		return level, n, true, nil, ""
+	}
+	kf, _ := head.Type().FieldByName("key")
+	nf, _ := head.Type().FieldByName("next")
+	linked := map[unsafe.Pointer]int32{}
+	seen := map[unsafe.Pointer]int32{}
+	setBad := func(m string) {
+		if bad == "" {
+			bad = m
+		}
+	}
+	for i := 0; i < hn.Len(); i++ {
+		p := hn.Index(i)
+		cnt := 0
+		var prev K
+		for !p.IsNil() {
+			up := p.UnsafePointer()
+			if seen[up] == int32(i+1) {
+				setBad(fmt.Sprintf("cycle in the level-%d chain", i))
+				break
+			}
+			seen[up] = int32(i + 1)
+			node := p.Elem()
+			f := node.FieldByIndex(kf.Index)
+			k := reflect.NewAt(f.Type(), unsafe.Pointer(f.UnsafeAddr())).Elem().Interface().(K)
+			if cnt > 0 && cmp(prev, k) >= 0 {
+				setBad(fmt.Sprintf("level %d is not strictly ascending", i))
+			}
+			prev = k
+			cnt++
+			linked[up]++
+			nx := node.FieldByIndex(nf.Index)
+			if i == 0 && nx.Len() == 0 {
+				setBad("node with an empty tower linked at level 0")
+				break
+			}
+			if i >= nx.Len() {
+				setBad("node linked above its height")
+				break
+			}
+			if i == nx.Len()-1 && int(linked[up]) != nx.Len() {
+				setBad("node height differs from the number of levels it is linked in")
+			}
+			p = nx.Index(i)
+		}
+		lens = append(lens, cnt)
+	}
+	if len(lens) > 0 && len(linked) != lens[0] {
+		setBad("a node is linked at an upper level but not at level 0")
+	}
+	for len(lens) > 0 && lens[len(lens)-1] == 0 {
+		lens = lens[:len(lens)-1]
+	}
+	return level, n, false, lens, bad
+}
